@@ -172,7 +172,7 @@ def run(tier, seed):
             dist["with_missing_picks"] += int("missing=0" not in node.desc and "missing=" in node.desc)
         else:
             d = rnd.choice([1, 2, 2, 3])
-            node = distgen.tree(rnd, d, D, T, rnd.choice([0, 1, 2, 2, 3]))
+            node = distgen.combo_tree(rnd, i, D, T) if i < len(distgen.COMBOS) else distgen.tree(rnd, d, D, T, rnd.choice([0, 1, 2, 2, 3]))
             depth = node.term.count("(D")
             dist["nested" if depth else "leaf"] += 1
             dist["depth>=2"] += int(depth >= 2)
